@@ -490,6 +490,121 @@ theorem C15_empty_entries_entitle_to_nothing (c : Cfg) (u a nu : Str) (es : List
   cases hes'
   exact hne (hempty e he)
 
+/-! ## the configuration block: directives that are left out
+
+`Init` gives every directive that is not written its default, and no default looks at another
+directive.  So the usual configuration — no action directive, no `check_header` — is one the main
+theorem speaks about, and writing a directive with its default value changes nothing. -/
+
+/-- **C15 (defaults).** Without action directives all three actions are `reject`. -/
+theorem C15_default_actions_reject (d : Directives) (h1 : d.unauthAction = none)
+    (h2 : d.noMatchAction = none) (h3 : d.errAction = none) : AllReject d.cfg := by
+  simp [AllReject, Directives.cfg, h1, h2, h3, rejectAction]
+
+/-- **C15 (the default configuration).** With no action directive and no `check_header` directive
+written — whatever the tables and normalisers are — a client's message is accepted only if the
+client is authenticated, entitled to the envelope sender and to the header author. -/
+theorem C15_default_configuration_accepted_only_if_entitled (d : Directives)
+    (h1 : d.unauthAction = none) (h2 : d.noMatchAction = none) (h3 : d.errAction = none)
+    (hch : d.checkHeader = none) (u mailFrom : Str) (h : Header)
+    (hacc : accepted d.cfg (some u) mailFrom h = true) :
+    u ≠ [] ∧ Entitled d.cfg u mailFrom ∧ AuthorOK d.cfg u h := by
+  have := C15_accepted_only_if_entitled d.cfg (C15_default_actions_reject d h1 h2 h3) u mailFrom h hacc
+  exact ⟨this.1, this.2.1, this.2.2 (by simp [Directives.cfg, hch])⟩
+
+/-- The configuration block with every default written out. -/
+def explicitDirectives (d : Directives) : Directives :=
+  { d with
+    checkHeader := some (d.checkHeader.getD true)
+    emailPrepare := some (d.emailPrepare.getD identityTable)
+    userToEmail := some (d.userToEmail.getD identityTable)
+    unauthAction := some (d.unauthAction.getD rejectAction)
+    noMatchAction := some (d.noMatchAction.getD rejectAction)
+    errAction := some (d.errAction.getD rejectAction) }
+
+/-- **C15 (defaults, written or not).** Leaving a directive out and writing it with its default
+value give the same check. -/
+theorem C15_defaults_written_or_not (d : Directives) : (explicitDirectives d).cfg = d.cfg := rfl
+
+/-- **C15 (defaults are independent).** What the check does with one action directive left out
+does not depend on whether any other directive is written: the action of every refusal site is
+the written one or `reject`. -/
+theorem C15_default_of_each_action (d : Directives) (r : Reason) :
+    actionFor d.cfg r =
+      (match r with
+       | .authRequired => d.unauthAction
+       | .noMatch => d.noMatchAction
+       | _ => d.errAction).getD rejectAction := by
+  cases r <;> rfl
+
+/-! ## entitlements kept in a file (`table.file`): edits and reloads -/
+
+theorem FileState.run_append (s : FileState) (ops ops' : List FileOp) :
+    s.run (ops ++ ops') = (s.run ops).run ops' := by
+  simp [FileState.run, List.foldl_append]
+
+theorem FileState.run_reload (s : FileState) (ops : List FileOp) :
+    s.run (ops ++ [.reload]) = (s.run ops).step .reload := by
+  rw [FileState.run_append]; rfl
+
+/-- **C15 (reload, file there).** Whatever happened before — any edits, any reloads —, after a
+reload the table holds exactly the entry lines of the file as it is now; in particular none when
+the file has no entry line left (emptied, comments only). -/
+theorem C15_file_reload_loads_current (s : FileState) (ops : List FileOp) (ls : Lines)
+    (h : (s.run ops).file = .entries ls) : (s.run (ops ++ [.reload])).loaded = ls := by
+  rw [FileState.run_reload]
+  simp only [FileState.step, h]
+
+/-- **C15 (reload, file gone).** After a reload with the file deleted the table holds nothing. -/
+theorem C15_file_reload_absent (s : FileState) (ops : List FileOp)
+    (h : (s.run ops).file = .absent) : (s.run (ops ++ [.reload])).loaded = [] := by
+  rw [FileState.run_reload]
+  simp only [FileState.step, h]
+
+/-- A reload does not touch the file. -/
+theorem C15_file_reload_keeps_file (s : FileState) (ops : List FileOp) :
+    (s.run (ops ++ [.reload])).file = (s.run ops).file := by
+  rw [FileState.run_reload]
+  simp only [FileState.step]
+  split <;> rfl
+
+/-- **C15 (decisions follow the current content).** After a reload both stages decide exactly as
+a check whose `user_to_email` is a table with the file's current entry lines — the history
+(earlier contents, earlier reloads) has no influence. -/
+theorem C15_file_decision_follows_current_content (c : Cfg) (s : FileState) (ops : List FileOp)
+    (ls : Lines) (h : (s.run ops).file = .entries ls) (conn : Option Str) (mailFrom : Str) (hd : Header) :
+    checkSender { c with userToEmail := (s.run (ops ++ [.reload])).table } conn mailFrom =
+      checkSender { c with userToEmail := fileTable ls } conn mailFrom ∧
+    checkBody { c with userToEmail := (s.run (ops ++ [.reload])).table } conn hd =
+      checkBody { c with userToEmail := fileTable ls } conn hd := by
+  simp [FileState.table, C15_file_reload_loads_current s ops ls h]
+
+/-- **C15 (withdrawn entitlements).** If the file as it is now gives the user no entry (no line
+with the user's key, or only empty values — the user's lines were removed, given to someone
+else, the file was emptied), then after a reload no sender address passes for that user, whatever
+the file held before. -/
+theorem C15_file_withdrawn_refused (c : Cfg) (s : FileState) (ops : List FileOp) (ls : Lines)
+    (h : (s.run ops).file = .entries ls) (u a nu : Str) (hnu : c.authNorm u = some nu)
+    (hno : ∀ e ∈ fileLookup ls nu, e = []) :
+    (authzSender { c with userToEmail := (s.run (ops ++ [.reload])).table } u a).reason ≠ none := by
+  apply C15_empty_entries_entitle_to_nothing
+    { c with userToEmail := (s.run (ops ++ [.reload])).table } u a nu (fileLookup ls nu) hnu _ hno
+  simp [FileState.table, C15_file_reload_loads_current s ops ls h, fileTable, tableEntries]
+
+/-- … in particular when the file was emptied, … -/
+theorem C15_file_emptied_refused (c : Cfg) (s : FileState) (ops : List FileOp)
+    (h : (s.run ops).file = .entries []) (u a nu : Str) (hnu : c.authNorm u = some nu) :
+    (authzSender { c with userToEmail := (s.run (ops ++ [.reload])).table } u a).reason ≠ none :=
+  C15_file_withdrawn_refused c s ops [] h u a nu hnu (by simp [fileLookup])
+
+/-- … and when it was deleted. -/
+theorem C15_file_deleted_refused (c : Cfg) (s : FileState) (ops : List FileOp)
+    (h : (s.run ops).file = .absent) (u a nu : Str) (hnu : c.authNorm u = some nu) :
+    (authzSender { c with userToEmail := (s.run (ops ++ [.reload])).table } u a).reason ≠ none := by
+  apply C15_empty_entries_entitle_to_nothing
+    { c with userToEmail := (s.run (ops ++ [.reload])).table } u a nu [] hnu _ (by simp)
+  simp [FileState.table, C15_file_reload_absent s ops h, fileTable, tableEntries, fileLookup]
+
 /-! ## non-vacuity: concrete configurations and messages -/
 
 section Examples
@@ -573,6 +688,32 @@ example : exCfg.fromNorm (s "Alice@Example.ORG") = exCfg.fromNorm (s "alice@exam
 
 /-- the hypotheses of `C15_entitled_passes` are satisfiable -/
 example : authzSender exCfg (s "ALICE") (s "Someone@Corp.Example") = pass := by decide
+
+-- the default configuration block (nothing written but the table) is one the theorems speak about
+def exDirectives : Directives := { userToEmail := some exTable, fromNorm := lowerNorm, authNorm := lowerNorm }
+example : exDirectives.cfg.errAction = rejectAction ∧ exDirectives.cfg.checkHeader = true := ⟨rfl, rfl⟩
+example : accepted exDirectives.cfg (some (s "alice")) (s "alice@example.org")
+    { fromFields := [one "alice@example.org"], senderFields := [] } = true := by decide
+example : accepted exDirectives.cfg (some (s "alice")) (s "alice@example.org")
+    { fromFields := [{ empty := false, parse := some [s "alice@example.org", s "bob@example.org"] }], senderFields := [] } = false := by decide
+
+-- a table file: alice is entitled, the file is emptied (or deleted) and reloaded: refused; before
+-- the reload the old entries still count; a damaged file keeps them
+def exFile : FileState := FileState.init (some [(s "alice", [s "alice@example.org"]), (s "alice", [s "corp.example"])])
+def exFileCfg (st : FileState) : Cfg := { exCfg with userToEmail := st.table }
+example : fileLookup exFile.loaded (s "alice") = [s "alice@example.org", s "corp.example"] := by decide
+example : checkSender (exFileCfg exFile) (some (s "alice")) (s "x@corp.example") = pass := by decide
+example : checkSender (exFileCfg (exFile.run [.write []])) (some (s "alice")) (s "alice@example.org") = pass := by decide
+example : checkSender (exFileCfg (exFile.run [.write [], .reload])) (some (s "alice")) (s "alice@example.org")
+    = refuse exCfg .noMatch := by decide
+example : checkSender (exFileCfg (exFile.run [.delete, .reload])) (some (s "alice")) (s "alice@example.org")
+    = refuse exCfg .noMatch := by decide
+example : checkSender (exFileCfg (exFile.run [.damage, .reload])) (some (s "alice")) (s "alice@example.org") = pass := by decide
+example : checkSender (exFileCfg (exFile.run [.write [], .reload, .write [(s "alice", [s "*"])], .reload])) (some (s "alice")) (s "bob@example.org")
+    = pass := by decide
+-- the hypotheses of `C15_file_withdrawn_refused` are satisfiable (alice's line given to bob)
+example : (exFile.run [.write [(s "bob", [s "alice@example.org"])]]).file = .entries [(s "bob", [s "alice@example.org"])] ∧
+    ∀ e ∈ fileLookup [(s "bob", [s "alice@example.org"])] (s "alice"), e = [] := ⟨rfl, by decide⟩
 
 end Examples
 
